@@ -54,77 +54,78 @@ var atRe = regexp.MustCompile(`^"((?:[^"\\]|\\.)*)"(?:#(\d+))?\s+(assert|assume)
 // PointSpec is an assertion attached to the first statement whose source line
 // contains Pattern (the pattern must occur on exactly one line of the function).
 type PointSpec struct {
-	Pattern string
-	Text    string
-	Line    int
-	File    string
-	Index   int
-	Props   []string
-	Expr    ast.Expr
-	Info    *types.Info
-	SrcLine int
-	SrcFile string
-	Pos     token.Pos
-	ready   bool
-	Assume  bool // the fact is assumed, not proved (listed in the evidence)
-	Occurrence int // "pattern"#k: the k-th line containing the pattern (0: the pattern must be unique)
+	Pattern    string
+	Text       string
+	Line       int
+	File       string
+	Index      int
+	Props      []string
+	Expr       ast.Expr
+	Info       *types.Info
+	SrcLine    int
+	SrcFile    string
+	Pos        token.Pos
+	ready      bool
+	Assume     bool // the fact is assumed, not proved (listed in the evidence)
+	Occurrence int  // "pattern"#k: the k-th line containing the pattern (0: the pattern must be unique)
 }
 
 type Contract struct {
-	Points   []*PointSpec
-	Header   string
-	RecvType string
-	Name     string
-	File     string
-	Line     int
-	Props    []string
-	Clauses  []*Clause
-	Loops    []*LoopSpec
-	Inline   bool
-	Trusted  bool
-	Pure     bool // the function's result depends only on its arguments (no heap reads)
-	Fn       *ssa.Function
-	Stub     *ast.FuncDecl // generated stub (typed)
-	StubObj  *types.Func
-	Decl     *ast.FuncDecl // the real function
-	Replay   string
-	NoFrame  bool
-	Unfolds  []string
-	WithInit  bool     // the package initialisers are executed first, so that package-level tables have their values
-	Exclusive bool     // the function needs exclusive access to its receiver (writes fields that have no lock)
-	Acquires []string // mutexes (Type.field) the function may acquire, transitively
-	Role     string   // goroutine role the function is the body of
-	Atomic   []string
-	Extra    map[string][]string
+	Points     []*PointSpec
+	Header     string
+	RecvType   string
+	Name       string
+	File       string
+	Line       int
+	Props      []string
+	Clauses    []*Clause
+	Loops      []*LoopSpec
+	Inline     bool
+	Trusted    bool
+	Pure       bool // the function's result depends only on its arguments (no heap reads)
+	Fn         *ssa.Function
+	Stub       *ast.FuncDecl // generated stub (typed)
+	StubObj    *types.Func
+	Decl       *ast.FuncDecl // the real function
+	Replay     string
+	NoFrame    bool
+	Unfolds    []string
+	PointsOnly bool
+	WithInit   bool     // the package initialisers are executed first, so that package-level tables have their values
+	Exclusive  bool     // the function needs exclusive access to its receiver (writes fields that have no lock)
+	Acquires   []string // mutexes (Type.field) the function may acquire, transitively
+	Role       string   // goroutine role the function is the body of
+	Atomic     []string
+	Extra      map[string][]string
 }
 
 type VerifCtx struct {
-	repo      string
-	pkgDirs   []string
-	fset      *token.FileSet
-	pkgs      []*packages.Package
-	prog      *ssa.Program
-	rootPkgs  []*ssa.Package
-	contracts map[*ssa.Function]*Contract
-	byName    map[string]*Contract
-	implCache map[string][]implInfo
-	usedModels map[string]int
-	srcCache  map[string][]byte
-	closed    map[types.Object]bool // channel-holding vars/fields that are passed to close() somewhere
-	closedAny bool
-	folded    int
-	specDecls map[types.Object]*ast.FuncDecl
-	infoOf    map[*types.Package]*types.Info
-	pkgOf     map[*types.Package]*packages.Package
-	genFiles  map[string]string
-	decls     map[*types.Func]*ast.FuncDecl
-	fieldDisc map[string]fieldDiscipline
-	lockRank  map[string]int
+	repo            string
+	pkgDirs         []string
+	fset            *token.FileSet
+	pkgs            []*packages.Package
+	prog            *ssa.Program
+	rootPkgs        []*ssa.Package
+	contracts       map[*ssa.Function]*Contract
+	byName          map[string]*Contract
+	implCache       map[string][]implInfo
+	usedModels      map[string]int
+	srcCache        map[string][]byte
+	closed          map[types.Object]bool // channel-holding vars/fields that are passed to close() somewhere
+	closedAny       bool
+	folded          int
+	specDecls       map[types.Object]*ast.FuncDecl
+	infoOf          map[*types.Package]*types.Info
+	pkgOf           map[*types.Package]*packages.Package
+	genFiles        map[string]string
+	decls           map[*types.Func]*ast.FuncDecl
+	fieldDisc       map[string]fieldDiscipline
+	lockRank        map[string]int
 	calledContracts map[string]int
-	lockSlots map[string]bool
-	disc      func(ex *Exec, st *State, p PtrV, write bool, pc *Term, pos token.Pos)
-	axioms    map[*types.Package]*Contract
-	externs   [][2]string
+	lockSlots       map[string]bool
+	disc            func(ex *Exec, st *State, p PtrV, write bool, pc *Term, pos token.Pos)
+	axioms          map[*types.Package]*Contract
+	externs         [][2]string
 }
 
 type fieldDiscipline struct {
@@ -132,7 +133,7 @@ type fieldDiscipline struct {
 	Arg  string
 }
 
-var clauseKW = regexp.MustCompile(`^(func|props|requires|ensures|modifies|loop|label|inline|trusted|pure|import|replay|noframe|field|lockorder|lemma|spec|axiom|at|extern|exclusive|acquires|role|withinit|unfolds)\b`)
+var clauseKW = regexp.MustCompile(`^(func|props|requires|ensures|modifies|loop|label|inline|trusted|pure|import|replay|noframe|field|lockorder|lemma|spec|axiom|at|extern|exclusive|acquires|role|withinit|unfolds|pointsonly)\b`)
 
 type rawContract struct {
 	header string
@@ -219,10 +220,10 @@ func LoadCtx(repo string, pkgDirs []string) (*VerifCtx, error) {
 		fieldDisc: map[string]fieldDiscipline{}, lockRank: map[string]int{}, calledContracts: map[string]int{}, lockSlots: map[string]bool{}, axioms: map[*types.Package]*Contract{}}
 	overlay := map[string][]byte{}
 	type pending struct {
-		dir   string
-		raws  []*rawContract
-		cs    []*Contract
-		path  string
+		dir  string
+		raws []*rawContract
+		cs   []*Contract
+		path string
 	}
 	var pend []*pending
 	for _, d := range pkgDirs {
@@ -532,6 +533,10 @@ func buildStub(rc *rawContract, file string) (*Contract, string, error) {
 		switch kw {
 		case "props":
 			ct.Props = strings.Fields(rest)
+		case "pointsonly":
+			// carries only `at` assertions: always inlined, never verified on its own
+			ct.Inline = true
+			ct.PointsOnly = true
 		case "inline":
 			ct.Inline = true
 		case "unfolds":
